@@ -781,10 +781,10 @@ func HcRecvField(v ssa.Value) string {
 // HcCallArg returns argument i (receiver counts) of a call instruction, or nil.
 func HcCallArg(in ssa.Instruction, i int) ssa.Value {
 	ci, ok := in.(ssa.CallInstruction)
-	if !ok || i >= len(ci.Common().Args) {
+	if !ok || i >= len(BaselineArgs(ci.Common())) {
 		return nil
 	}
-	return ci.Common().Args[i]
+	return BaselineArgs(ci.Common())[i]
 }
 
 // HcEachInstr visits every instruction of fn.
